@@ -18,6 +18,11 @@ RULE = ("seeded generator of serialized BTC transactions (1..N inputs, script-si
         "push, and a subset relayed through the whole stack to the simulated device. "
         "distinct = (n_inputs, sorted set of op kinds used, kind of last op per input class, "
         "case class); non-trivial = at least one input with >= 2 operations")
+RULE_ADDED = (
+              'Also: undecodable requests repeated up to three times, after a well-formed one, or '
+              'with a reconnection pending; half of the relays in segwit mode; lengths and counts on '
+              'varint boundaries; a third of the shards under python -O ')
+RULE = RULE + " " + RULE_ADDED.strip()
 ASSUMPTIONS = [
     "comm/bitcoin.py is exercised composed with the bitcoin.core shim in pv/shims "
     "(python-bitcoinlib is absent); the oracle shares no code with the shim",
